@@ -81,14 +81,16 @@ func (fc *fileCase) boundaries() []int64 {
 	return out
 }
 
-// genHandFileDAG hand-assembles a well-formed file DAG (correct FileSize / BlockSizes / Tsize) whose chunks may be empty
-// at leading, middle or trailing positions - shapes no chunker emits but any writer may store. Leaves are raw blocks or
-// dag-pb File nodes; with `levels` == 3 the chunks are grouped under intermediate nodes.
-func genHandFileDAG(t *rapid.T) *fileCase {
+// genHandFile hand-assembles a well-formed file DAG in mutable form (see genHandFileDAG).
+func genHandFile(t *rapid.T, allowOldStyle bool) (root *mnode, data []byte, writer, desc string) {
 	n := rapid.IntRange(1, 7).Draw(t, "nchunks")
 	pbLeaves := rapid.Bool().Draw(t, "pbLeaves")
+	// old-style files: dag-pb leaves and no BlockSizes in the interior nodes (the reader then has to open a child to learn its size)
+	// (malformed per the UnixFS spec but tolerated by the reader: only generated where correctness of the bytes is the subject,
+	// not request order or laziness)
+	noBlockSizes := allowOldStyle && pbLeaves && rapid.IntRange(0, 2).Draw(t, "noBlockSizes") == 0
+	noFileSize := noBlockSizes && rapid.Bool().Draw(t, "noFileSize")
 	var chunks [][]byte
-	var data []byte
 	pattern := ""
 	for i := 0; i < n; i++ {
 		var c []byte
@@ -113,10 +115,14 @@ func genHandFileDAG(t *rapid.T) *fileCase {
 		for i, k := range kids {
 			// Tsize only has to be right for raw leaves (the reader trusts it); cumulative sizes are not the subject here
 			m.Links = append(m.Links, mlink{Tsize: i64p(int64(sizes[i])), Child: k})
-			m.UFS.BlockSizes = append(m.UFS.BlockSizes, sizes[i])
+			if !noBlockSizes {
+				m.UFS.BlockSizes = append(m.UFS.BlockSizes, sizes[i])
+			}
 			tot += sizes[i]
 		}
-		m.UFS.FileSize = u64p(tot)
+		if !noFileSize {
+			m.UFS.FileSize = u64p(tot)
+		}
 		return m, tot
 	}
 	var kids []*mnode
@@ -133,13 +139,24 @@ func genHandFileDAG(t *rapid.T) *fileCase {
 		b, bs := interior(kids[cut:], sizes[cut:])
 		kids, sizes = []*mnode{a, b}, []uint64{as, bs}
 	}
-	root, _ := interior(kids, sizes)
+	root, _ = interior(kids, sizes)
+	writer = fmt.Sprintf("hand-%s-pb=%v-l%d-bs=%v-fs=%v", pattern, pbLeaves, levels, !noBlockSizes, !noFileSize)
+	desc = fmt.Sprintf("hand-made file chunks=%s (0 = empty) pbLeaves=%v levels=%d blocksizes=%v filesize=%v len=%d", pattern, pbLeaves, levels, !noBlockSizes, !noFileSize, len(data))
+	return
+}
+
+// genHandFileDAG hand-assembles a well-formed file DAG (correct FileSize / BlockSizes / Tsize where present) whose chunks may
+// be empty at leading, middle or trailing positions - shapes no chunker emits but any writer may store. Leaves are raw
+// blocks or dag-pb File nodes; with three levels the chunks are grouped under intermediate nodes; old-style variants omit
+// BlockSizes (and FileSize).
+func genHandFileDAG(t *rapid.T, allowOldStyle bool) *fileCase {
+	root, data, writer, desc := genHandFile(t, allowOldStyle)
 	st := NewStore()
 	c, err := root.store(st, st.LinkSystem())
 	if err != nil {
 		t.Fatalf("harness: storing hand-made file: %v", err)
 	}
-	fc := &fileCase{St: st, Root: c, Data: data, Writer: fmt.Sprintf("hand-%s-pb=%v-l%d", pattern, pbLeaves, levels), W: n, CS: 1}
+	fc := &fileCase{St: st, Root: c, Data: data, Writer: writer, W: 7, CS: 1, Desc: desc}
 	fc.Tree, err = st.FileTree(c, 0)
 	if err != nil {
 		t.Fatalf("harness: model: %v", err)
@@ -147,6 +164,5 @@ func genHandFileDAG(t *rapid.T) *fileCase {
 	if fc.Tree.End != int64(len(data)) {
 		t.Fatalf("harness: model length %d != %d", fc.Tree.End, len(data))
 	}
-	fc.Desc = fmt.Sprintf("hand-made file chunks=%s (0 = empty) pbLeaves=%v levels=%d len=%d", pattern, pbLeaves, levels, len(data))
 	return fc
 }
